@@ -167,13 +167,17 @@ def _judge_tree_prefixes(ctx, v, code, m):
 
 
 def _install(ctx):
+    if _state.get('installed'):
+        _state['ctx'] = ctx
+        return
+    _state['installed'] = True
     import parso.python.prefix
     import parso.python.tokenize as T
     _state['ctx'] = ctx
     contracts.wrap_generator(T, 'tokenize_lines', StreamChecker)
 
     def sp_post(result, args, kwargs, old):
-        ctx.count('contract_evals:split_prefix')
+        _state['ctx'].count('contract_evals:split_prefix')
     contracts.install(parso.python.prefix, 'split_prefix', sp_post)
 
 
